@@ -112,9 +112,9 @@ Example C14_example_trace :
   let tr3 := [ERead 7 4; ECreate 3 "u" cA (tmp_prefix ++ "4" ++ tmp_suffix); EWrite 3 4; EClose 3; ERename 3; ERead 7 9; EEof 7] in
   let tr := (tr1 ++ ERename 0 :: tr2 ++ EOpen 7 "u" :: tr3)%list in
   forallb safe tr = true /\
-  exists s rr, exec sha0 init tr = Some s /\ getN 7%N (s_r s) = Some rr /\ r_st rr = RDone (Hit cB) /\
-    List.length (s_dir s) = 2%nat.
-Proof. split; [reflexivity|]. eexists. eexists. repeat split; vm_compute; reflexivity. Qed.
+  option_map (fun s => (option_map r_st (getN 7%N (s_r s)), List.length (s_dir s))) (exec sha0 init tr)
+  = Some (Some (RDone (Hit cB)), 2%nat).
+Proof. split; vm_compute; reflexivity. Qed.
 
 Example C14_example_case :
   let i := mk_input false [("u", [171%N; 205%N])] [(0%N, ("u", "b1")); (1%N, ("u", "b22"))]
